@@ -542,6 +542,12 @@ func consPass(cons map[string]*regexp.Regexp, h http.Header) bool {
 func judgeHist(w *core.W, c *histCase, prop string) {
 	parser := parserOf(w)
 	f := flamego.NewWithLogger(io.Discard)
+	drift := ""
+	if len(c.Steps)%2 == 0 {
+		// a middleware that reads the bind parameters again after Next(): they stay the request's while it is served,
+		// whether the shortcut or the tree found the route
+		f.Use(paramsWatch(&drift))
+	}
 	nf := false
 	f.NotFound(func() { nf = true })
 	hit := -1
@@ -691,6 +697,7 @@ func judgeHist(w *core.W, c *histCase, prop string) {
 				}
 				w.Eval()
 				hit, seen, nf = -1, nil, false
+				drift = ""
 				rec := httptest.NewRecorder()
 				sent := reqView(req)
 				var pan interface{}
@@ -708,6 +715,10 @@ func judgeHist(w *core.W, c *histCase, prop string) {
 				}
 				if (hit >= 0) == nf {
 					w.Violate("chain-count", c, fmt.Sprintf("step %d: %s %q: route handler ran=%v and not-found ran=%v", si, st.Method, path, hit >= 0, nf))
+					return
+				}
+				if drift != "" {
+					w.Violate("params-after-next", c, fmt.Sprintf("step %d: %s %q: %s", si, st.Method, path, drift))
 					return
 				}
 				obs := observed{found: hit >= 0, routeIdx: hit, params: seen, flame: true}
